@@ -30,6 +30,7 @@
 use crate::gen;
 use crate::util::{self, Args};
 use anyhow::{anyhow, Result};
+use ragc_core::kmer::{Kmer, KmerMode};
 use ragc_core::{Decompressor, DecompressorConfig};
 use serde_json::{json, Value};
 use std::collections::BTreeSet;
@@ -118,10 +119,11 @@ struct Nt {
     overlap: u64,   // non-empty and start or clamped end lies strictly inside the k bases shared by two segments
     rev: u64,       // non-empty and meets the contribution of a reverse-oriented segment
     clamped: u64,   // non-empty and b > len
+    split: u64,     // non-empty and spans a junction that was produced by splitting a segment (k-mer is not a splitter)
     tail_zero: u64, // non-empty, reaches the last base, and the list ends with a segment contributing 0 bases
 }
 impl Nt {
-    fn count(&mut self, lens: &[u64], rcs: &[u8], k: usize, l: usize, a: usize, b: usize) {
+    fn count(&mut self, lens: &[u64], rcs: &[u8], k: usize, l: usize, a: usize, b: usize, split_j: &[usize]) {
         self.queries += 1;
         let e = b.min(l);
         if a >= e {
@@ -153,6 +155,9 @@ impl Nt {
         }
         if touched >= 2 {
             self.multi += 1;
+        }
+        if split_j.iter().any(|&j| a < j && j < e) {
+            self.split += 1;
         }
         if rev {
             self.rev += 1;
@@ -186,6 +191,23 @@ fn trace(a: &Args) -> Result<()> {
     };
     let mut d = Decompressor::open(agc, DecompressorConfig { verbosity: 0 })?;
     let k = d.kmer_length as usize;
+    // MEASUREMENT ONLY: the splitter set `create` determined from the first input (same calls as archive::create_like_cli),
+    // to tell junctions placed by segmentation (k-mer is a splitter) from junctions produced by splitting a segment in two.
+    let splitters: Option<Vec<u64>> = match (a.opt("first-file"), a.opt("seg")) {
+        (Some(f), Some(sg)) => {
+            let seg: usize = sg.parse()?;
+            let path = std::path::PathBuf::from(f);
+            let set = if a.flag("single") {
+                ragc_core::determine_splitters_streaming_first_sample(&path, k, seg)?.0
+            } else {
+                ragc_core::determine_splitters_streaming(&path, k, seg)?.0
+            };
+            let mut v: Vec<u64> = set.into_iter().collect();
+            v.sort_unstable();
+            Some(v)
+        }
+        _ => None,
+    };
     let (mut n_short, mut n_long, mut n_contigs, mut n_queries, mut n_events) = (0usize, 0usize, 0usize, 0u64, 0u64);
     let (mut seen_short, mut seen_long) = (0usize, 0usize);
     for (si, smp) in samples.iter().enumerate() {
@@ -266,6 +288,27 @@ fn trace(a: &Args) -> Result<()> {
                     }
                 }
             }
+            // junctions whose k overlap bases are not a splitter of the reference (measurement only)
+            let mut split_j: Vec<usize> = vec![];
+            if let Some(spl) = &splitters {
+                for &j in &junctions {
+                    if j >= k && j <= l {
+                        let w = &input[j - k..j];
+                        let is_spl = if w.iter().any(|&b| b > 3) {
+                            false
+                        } else {
+                            let mut km = Kmer::new(k as u32, KmerMode::Canonical);
+                            for &b in w {
+                                km.insert(b as u64);
+                            }
+                            spl.binary_search(&km.data()).is_ok()
+                        };
+                        if !is_spl {
+                            split_j.push(j);
+                        }
+                    }
+                }
+            }
             let mut plan: Vec<(usize, Vec<usize>)> = vec![];
             if is_short {
                 let mut all: Vec<usize> = (0..=l + 2).collect();
@@ -306,7 +349,7 @@ fn trace(a: &Args) -> Result<()> {
                 qevs.push(query_event(&mut d, &sname, &cname, *s, bs)?);
                 n_queries += bs.len() as u64;
                 for &b in bs {
-                    nt.count(&lens, &rcs, k, l, *s, b);
+                    nt.count(&lens, &rcs, k, l, *s, b, &split_j);
                 }
             }
             if got.is_none() {
@@ -320,7 +363,7 @@ fn trace(a: &Args) -> Result<()> {
                        "lens": lens, "rc": rcs, "len_res": len_res, "length": length,
                        "mode": if is_short { "all" } else { "junction" }, "got_first": got_first, "msgs": msgs,
                        "nt": {"queries": nt.queries, "nonempty": nt.nonempty, "multi": nt.multi, "overlap": nt.overlap, "rev": nt.rev,
-                              "clamped": nt.clamped, "tail_zero": nt.tail_zero}})
+                              "clamped": nt.clamped, "tail_zero": nt.tail_zero, "split": nt.split, "split_junctions": split_j.len()}})
             )?;
             if let Some(m) = meta.as_mut() {
                 writeln!(
@@ -330,7 +373,7 @@ fn trace(a: &Args) -> Result<()> {
                            "got_res": got_res, "lens": lens, "rc": rcs, "len_res": len_res, "length": length,
                            "mode": if is_short { "all" } else { "junction" }, "events": qevs.len(),
                            "nt": {"queries": nt.queries, "nonempty": nt.nonempty, "multi": nt.multi, "overlap": nt.overlap, "rev": nt.rev,
-                                  "clamped": nt.clamped, "tail_zero": nt.tail_zero}})
+                                  "clamped": nt.clamped, "tail_zero": nt.tail_zero, "split": nt.split, "split_junctions": split_j.len()}})
                 )?;
             }
             for e in qevs {
